@@ -325,6 +325,108 @@ def check(case, b):
     return None, info
 
 
+# ------------------------------------------------------------------ requested modifications
+def gen_requested(rnd):
+    ffn = rnd.choice(['charmm', 'charmm', 'amber', 'gromos'])
+    ff = atomistic.native_ff(ffn)
+    block = rnd.choice([a for a in atomistic.aa_names(ff) if a != 'PRO'])
+    req = []
+    if rnd.random() < 0.6:
+        req.append(rnd.choice([m for m in ('N-ter', 'NH2-ter') if m in ff.modifications]))
+    if rnd.random() < 0.6:
+        req.append(rnd.choice([m for m in ('C-ter', 'COOH-ter') if m in ff.modifications]))
+    side = [m for m in {'GLU': ['GLU-HE1', 'GLU-HE2'], 'ASP': ['ASP-HD1', 'ASP-HD2']}.get(block, []) if m in ff.modifications]
+    if side and rnd.random() < 0.7:
+        req.append(rnd.choice(side))
+    if not req:
+        req.append('C-ter')
+    rnd.shuffle(req)
+    # 'none' is what -nter none / -cter none put in the list: it asks for nothing, wherever it stands
+    for _ in range(rnd.choice([0, 1, 1, 2])):
+        req.insert(rnd.randint(0, len(req)), 'none')
+    return {'ff': ffn, 'block': block, 'requests': req, 'present': rnd.choice(['absent', 'absent', 'canonical']),
+            'drop_h': rnd.random() < 0.4, 'permute': rnd.random() < 0.5, 'seed': rnd.randrange(10 ** 6)}
+
+
+def run_requested(case, requests):
+    """Present the block (plus, optionally, the atoms of the requested modifications) with the request list on every atom; repair;
+    -> (names -> count, bonds by name, flagged input names)"""
+    import random
+    from vermouth.molecule import Molecule
+    from vermouth.processors.repair_graph import RepairGraph
+    r = random.Random(case['seed'])
+    ff = atomistic.native_ff(case['ff'])
+    blk = ff.blocks[case['block']]
+    atoms = [(nm, blk.nodes[nm]['element']) for nm in blk.nodes]
+    bonds = [tuple(e) for e in blk.edges]
+    if case['present'] == 'canonical':
+        for mod in requests:
+            if mod == 'none':
+                continue
+            g = ff.modifications[mod]
+            nm_of = {n: d['atomname'] for n, d in g.nodes(data=True)}
+            for n, d in g.nodes(data=True):
+                if d.get('PTM_atom') and d['atomname'] not in [a for a, _ in atoms]:
+                    atoms.append((d['atomname'], d.get('element', d['atomname'][0])))
+            for u, v in g.edges:
+                if g.nodes[u].get('PTM_atom') or g.nodes[v].get('PTM_atom'):
+                    bonds.append((nm_of[u], nm_of[v]))
+    if case['drop_h']:
+        hs = [a for a, e in atoms if e == 'H' and a in blk]
+        gone = set(r.sample(hs, min(len(hs), 2)))
+        atoms = [(a, e) for a, e in atoms if a not in gone]
+        bonds = [(u, v) for u, v in bonds if u not in gone and v not in gone]
+    if case['permute']:
+        r.shuffle(atoms)
+    mol = Molecule(force_field=ff)
+    key = {}
+    for k, (a, e) in enumerate(atoms):
+        key[a] = k
+        mol.add_node(k, atomname=a, element=e, resname=case['block'], resid=1, chain='A', atomid=k + 1, modification=list(requests))
+    for u, v in bonds:
+        if u in key and v in key:
+            mol.add_edge(key[u], key[v])
+    out = util.shared(RepairGraph, include_graph=False).run_molecule(mol)
+    names = {}
+    for n, d in out.nodes(data=True):
+        names[d.get('atomname')] = names.get(d.get('atomname'), 0) + 1
+    edges = {frozenset((out.nodes[u].get('atomname'), out.nodes[v].get('atomname'))) for u, v in out.edges}
+    flagged = sorted(str(d.get('atomname')) for n, d in out.nodes(data=True) if d.get('PTM_atom') and n in key.values())
+    return names, edges, flagged
+
+
+def check_requested(case, b):
+    ff = atomistic.native_ff(case['ff'])
+    blk = ff.blocks[case['block']]
+    names, edges, flagged = run_requested(case, case['requests'])
+    b.hits += 1
+    want = set(blk.nodes)
+    want_edges = {frozenset(e) for e in blk.edges}
+    for mod in case['requests']:
+        if mod == 'none':
+            continue
+        g = ff.modifications[mod]
+        want |= {d['atomname'] for _, d in g.nodes(data=True) if d.get('PTM_atom')}
+        want_edges |= {frozenset((g.nodes[u]['atomname'], g.nodes[v]['atomname'])) for u, v in g.edges
+                       if g.nodes[u].get('PTM_atom') or g.nodes[v].get('PTM_atom')}
+    got = set(names)
+    if got != want or any(c != 1 for c in names.values()):
+        return ('requested/atom-set', {'requests': case['requests'], 'missing': sorted(want - got), 'surplus': sorted(map(str, got - want)),
+                                       'repeated': sorted(str(k) for k, c in names.items() if c != 1)})
+    if not want_edges <= edges:
+        return ('requested/bonds', {'requests': case['requests'], 'missing': [sorted(e) for e in want_edges - edges][:5]})
+    # 'none' asks for nothing: the same presentation with the 'none' entries left out gives the same residue
+    stripped = [m for m in case['requests'] if m != 'none']
+    if stripped != case['requests']:
+        n2, e2, f2 = run_requested(case, stripped)
+        b.hits += 1
+        if n2 != names or e2 != edges:
+            return ('requested/none-entry-changes-result', {'requests': case['requests'], 'without_none': stripped,
+                                                            'only_with_none': sorted(map(str, set(names) - set(n2))),
+                                                            'only_without': sorted(map(str, set(n2) - set(names)))})
+    return None
+
+
 def cases(tier, seed):
     nb, per = (32, 30) if tier == 'quick' else (160, 250)
     return [{'seed': seed, 'batch': b, 'n': per, 'tier': tier} for b in range(nb)]
@@ -336,6 +438,27 @@ def run_case(params):
     limit = 10 if params['tier'] == 'quick' else 60
     for j in range(params['n']):
         b.total += 1
+        if j % 5 == 4:
+            rc = gen_requested(rnd)
+            try:
+                with harness.sub_alarm(limit):
+                    p = check_requested(rc, b)
+            except harness.CaseTimeout:
+                b.inconclusive('watchdog')
+                continue
+            except Exception as e:
+                if not harness.from_repo(e):
+                    raise
+                import traceback
+                p = ('requested/exception/%s' % type(e).__name__, {'error': repr(e), 'trace': traceback.format_exc()[-800:]})
+            if p:
+                b.violation(p[0], 'residue repaired with requested modifications differs from the patched block (%s)' % p[0],
+                            {'subcase': j, 'detail': p[1], 'case': rc})
+            else:
+                b.feat({'requested_modifications': 1, 'requests_with_none_entry': int('none' in rc['requests']),
+                        'requests_none_first': int(rc['requests'][0] == 'none' and len(rc['requests']) > 1),
+                        'modification_atoms_' + rc['present']: 1})
+            continue
         case = gen(rnd, params['tier'])
         try:
             with harness.sub_alarm(limit):
